@@ -164,7 +164,11 @@ def st_annotation_slice(tier):
             a, b = b, a
         if a is not None and a == b and draw(st.integers(0, 3)) != 0:
             b = a + draw(st.integers(1, span))
-        return {"features": feats, "start": a, "stop": b, "step": draw(st.sampled_from([None, 1, 2, -1]))}
+        return {
+            "features": feats, "start": a, "stop": b, "step": draw(st.sampled_from([None, 1, 2, -1])),
+            # slice bounds as NumPy integers (e.g. taken from Feature.get_location_range())
+            "np_bounds": draw(st.sampled_from([False, False, True])),
+        }
 
     return gen()
 
@@ -209,6 +213,7 @@ def st_annotseq_slice(tier):
             b = draw(st.integers(b, hi_excl))
         base["start"] = a
         base["stop"] = b
+        base["np_bounds"] = draw(st.sampled_from([False, False, True]))
         return base
 
     return gen()
@@ -217,11 +222,11 @@ def st_annotseq_slice(tier):
 def st_feature_index(tier):
     @st.composite
     def gen(draw):
-        base = draw(st_annotseq(tier, inside=True, max_feats=2, minlen=draw(st.sampled_from([1, 2, 8, 8]))))
+        base = draw(st_annotseq(tier, inside=True, max_feats=2, minlen=draw(st.sampled_from([1, 2, 8, 8, 30]))))
         lo = base["seqstart"]
         hi = lo + len(base["seq"]) - 1
         # the feature used as index: disjoint locations built from sorted cut points
-        k = draw(st.sampled_from([1, 2, 2, 3, 3, 4]))
+        k = draw(st.sampled_from([1, 2, 2, 3, 3, 4, 9, 12]))
         k = max(1, min(k, (hi - lo + 1) // 2))
         if hi - lo + 1 >= 2 * k:
             pts = sorted(draw(st.lists(st.integers(lo, hi), min_size=2 * k, max_size=2 * k, unique=True)))
@@ -271,8 +276,18 @@ def st_revcomp(tier):
 # --------------------------------------------------------------------------
 # run functions
 # --------------------------------------------------------------------------
+def _bound(case, v):
+    import numpy as np
+
+    if v is None or not case.get("np_bounds"):
+        return v
+    return np.int64(v)
+
+
 def run_annotation_slice(case):
     o = Outcome()
+    if case.get("np_bounds"):
+        o.label("numpy_int_bounds")
     annot = _mk_annotation(case["features"])
     a, b = case["start"], case["stop"]
     if a is not None and b is not None and a >= b:
@@ -280,7 +295,7 @@ def run_annotation_slice(case):
     lo = a
     hi = None if b is None else b - 1
     want, cut = model_slice(case["features"], lo, hi)
-    got = _annotation_set(annot[slice(a, b, case["step"])])
+    got = _annotation_set(annot[slice(_bound(case, a), _bound(case, b), case["step"])])
     o.check(got == want, "slice_keeps_exactly_inside_bases", lambda: f"got {sorted(map(str, got))} want {sorted(map(str, want))}")
     # the original annotation must not change
     o.check(
@@ -311,7 +326,9 @@ def run_annotseq_slice(case):
     a, b = case["start"], case["stop"]
     if a is not None and b is not None and a >= b:
         o.label("empty_slice")
-    sub = aseq[a:b]
+    sub = aseq[_bound(case, a) : _bound(case, b)]
+    if case.get("np_bounds"):
+        o.label("numpy_int_bounds")
     ia = 0 if a is None else a - s0
     ib = n if b is None else b - s0
     o.check_eq(str(sub.sequence), case["seq"][ia:ib], "slice_subsequence", "sub-sequence")
@@ -374,7 +391,7 @@ def run_feature_index(case):
         o.expect_raises(ValueError, lambda: aseq[feat], "mixed_strand_feature_rejected", "aseq[feature]")
         return o
     strand = strands.pop()
-    o.label("strand" + strand, f"nlocs={len(idx['locs'])}")
+    o.label("strand" + strand, f"nlocs={len(idx['locs'])}" if len(idx["locs"]) < 5 else "nlocs>=5")
     locs = idx["locs"]
     if strand == "+":
         pieces = [seq[l["first"] - s0 : l["last"] - s0 + 1] for l in sorted(locs, key=lambda l: l["first"])]
